@@ -26,6 +26,7 @@ def register(R, P):
             # GEN-INJ (trusted string facts): generation paths of one base are pairwise distinct
             E.axioms.append(z3.ForAll([b, i, j], z3.Implies(cc(b, cc(bak, soi(i))) == cc(b, cc(bak, soi(j))), i == j)))
             E.axioms.append(z3.ForAll([b, i], cc(b, empty) != cc(b, cc(bak, soi(i)))))
+            E.axioms.append(z3.ForAll([b], cc(b, empty) == b))          # s + "" == s
             # concatenation is associative (the code builds generation k+1 as (base + "_BAK") + str(k+1))
             c1, c2 = z3.Consts("gc1 gc2", Str)
             E.axioms.append(z3.ForAll([b, c1, c2], cc(cc(b, c1), c2) == cc(b, cc(c1, c2)), patterns=[cc(cc(b, c1), c2)]))
@@ -96,4 +97,53 @@ def register(R, P):
             "ValueError": ["UNCHANGED:: " + SAME],
         },
         modifies=FSMOD)
-    P["_serialize"] = ["_increment_backups"]
+    # ---- write_model: rotate, write, clean up (C14: the last good save is never lost) ------------------------------------------
+    R.consts["DEFAULT_MAX_BACKUPS"] = 3
+    R.globals["HIGHEST_VERSION"] = "object"
+    R.cls("SerializerModule"); R.cls("ModelWriterT", fields={"root": "str", "is_zip": "bool"})
+    R.cls("ModelObjT", fields={"path": "str"})
+    OTHERS_SAME = "all(implies(q != %s, FS.kind[q] == old(FS.kind[q]) and FS.content[q] == old(FS.content[q])) for q in every('str'))"
+    R.contract("extern::_get_serializer", trusted=True, note="importlib.import_module of the serializer for that format version; raises for an unknown version; no file is touched",
+        params={"version": "val"}, returns="SerializerModule", ensures=["result is not None", SAME], raises={"*": [SAME]}, modifies=[], alloc=True)
+    R.contract("extern::SerializerModule.ModelWriter", trusted=True, note="ModelWriter.__init__ stores its arguments; no file is touched",
+        params={"self": "SerializerModule", "system": "object", "model": "ModelObjT", "root": "str", "is_zip": "bool", "log_input": "bool", "compression": "object", "compresslevel": "object"},
+        nullable=["compresslevel", "compression", "system"],
+        returns="ModelWriterT", ensures=["fresh(result) and result.root == root and result.is_zip == is_zip", SAME], raises={"*": [SAME]}, modifies=[], alloc=True)
+    R.contract("extern::ModelWriterT.write_model", trusted=True,
+        note="the serializer writes below its root only (temporary files are gone when it returns or raises); on failure a directory destination may be left partial, "
+             "a zip destination is written to a temporary name and renamed, so it is absent or complete (fix commits for C14; bounded driver with fault injection)",
+        params={"self": "ModelWriterT"},
+        ensures=["FS.kind[self.root] == (1 if self.is_zip else 2)", OTHERS_SAME % "self.root"],
+        raises={"*": [OTHERS_SAME % "self.root", "0 <= FS.kind[self.root] and FS.kind[self.root] <= 2",
+                      "implies(self.is_zip, FS.kind[self.root] == old(FS.kind[self.root]) and FS.content[self.root] == old(FS.content[self.root]))"]},
+        modifies=FSMOD, alloc=True)
+    R.contract("extern::shutil.rmtree", variant="ignore", trusted=True, params={"self": "str", "ignore_errors": "bool"}, static={"ignore_errors": True},
+        note="rmtree(ignore_errors=True) never raises; the tree may be only partly deleted",
+        ensures=[SAME_EXCEPT_SELF, "0 <= FS.kind[self] and FS.kind[self] <= 2"], modifies=FSMOD)
+    P_ = "model_path"
+    KEPT0 = "(K(%s, 0) == old(K(%s, 0)) and Cn(%s, 0) == old(Cn(%s, 0)))" % (P_, P_, P_, P_)
+    MOVED1 = "(K(%s, 1) == old(K(%s, 0)) and Cn(%s, 1) == old(Cn(%s, 0)))" % (P_, P_, P_, P_)
+    R.contract(F + "::write_model",
+        params={"system": "object", "model": "ModelObjT", "model_path": "str", "is_zip": "bool", "backup": "bool", "log_input": "bool",
+                "compression": "object", "compresslevel": "object", "version": "val"},
+        nullable=["system", "compression", "compresslevel"],
+        requires=["FS_WF()"],
+        ensures=[
+            "SAVED:: K(model_path, 0) == (1 if is_zip else 2)",
+            # C14: with backups on, the previous save is now the first backup ...
+            "PREVIOUS-IS-FIRST-BACKUP:: implies(backup and old(K(model_path, 0)) != 0, %s)" % MOVED1,
+            # ... and the two generations before it moved up in order
+            "OLDER-IN-ORDER:: all(implies(backup and 1 < k and k <= 3 and all(implies(0 <= j and j < k, old(K(model_path, j)) != 0) for j in every('int')),"
+            " K(model_path, k) == old(K(model_path, k - 1)) and Cn(model_path, k) == old(Cn(model_path, k - 1))) for k in every('int'))",
+            "PATH-SET:: model.path == model_path",
+        ],
+        raises={"*": [
+            # C14: whatever failed -- a file operation of the rotation, an unknown format version, the writer at any point --
+            # the most recent complete copy is intact at the path or at its first backup
+            "LAST-GOOD-SAFE:: implies(backup and old(K(model_path, 0)) != 0, %s or %s)" % (KEPT0, MOVED1),
+            "OLDER-NOT-LOST:: all(implies(backup and 1 <= k and k < 3 and old(K(model_path, k)) != 0,"
+            " (K(model_path, k) == old(K(model_path, k)) and Cn(model_path, k) == old(Cn(model_path, k)))"
+            " or (K(model_path, k + 1) == old(K(model_path, k)) and Cn(model_path, k + 1) == old(Cn(model_path, k)))) for k in every('int'))",
+        ]},
+        modifies=FSMOD + ["model.path"], alloc=True)
+    P["_serialize"] = ["_increment_backups", "write_model"]
